@@ -1,8 +1,11 @@
 import CwPlus.Model.Cw20
+import CwPlus.Props.C20
 /-!
 # C01 — cw20: total supply always equals the sum of all balances
 
-Property theorems only; helper lemmas about maps live in `Base/AMap.lean`.
+Property theorems only; helper lemmas about maps live in `Base/AMap.lean`.  The statement about the
+paged `AllAccounts` listing (`listed_sum`) uses the paging theorems of C20 (`Props/C20.lean`,
+`Lemmas/Paginate.lean`); `Props/C20.lean` does not import this file.
 -/
 namespace CwPlus.Props.C01
 open CwPlus CwPlus.Cw20
@@ -302,6 +305,57 @@ theorem failed_call_changes_nothing {s : State} {blk : Block} {snd : Addr} {msg 
     (h : execute s blk snd msg = .error e) : step s blk snd msg = s := by
   simp [step, h]
 
+/-! ## The listed accounts: supply = Σ `Balance` over the complete `AllAccounts` listing -/
+
+/-- `TokenInfo.total_supply` as the query reports it: the stored `TOKEN_INFO.total_supply` (the
+driver renders `obs.supply` from this field). -/
+def queryTotalSupply (s : State) : Nat := s.supply
+
+/-- What a client reads with `Balance { address }` for a listed (hence valid) address. -/
+def balanceOf (s : State) (a : Addr) : Nat :=
+  match queryBalance s ⟨true, a⟩ with
+  | .ok n => n
+  | .error _ => 0
+
+theorem balanceOf_eq (s : State) (a : Addr) : queryBalance s ⟨true, a⟩ = .ok (balanceOf s a) ∧ balanceOf s a = bal s a := by
+  simp [balanceOf, queryBalance, check, bind, Except.bind, pure, Except.pure]
+
+/-- `run` of this file and of `Props/C20.lean` are the same function. -/
+theorem run_eq_C20 (s : State) (ops : List (Block × Addr × Msg)) : run s ops = CwPlus.Props.C20.run s ops := rfl
+
+/-- In a state whose balance map has no repeated key, the `Balance` answers over the complete sorted
+listing add up to the sum of the map. -/
+theorem sum_listed_eq {s : State} (hn : AMap.NodupKeys s.balances) :
+    ((((Paginate.sortedEntries Paginate.strLt s.balances).map (·.1))).map (balanceOf s)).sum = AMap.sum s.balances := by
+  rw [← Paginate.sum_sortedEntries Paginate.strLt s.balances, List.map_map]
+  unfold AMap.sum
+  congr 1
+  apply List.map_congr_left
+  intro e he
+  obtain ⟨k, v⟩ := e
+  have := (Paginate.mem_sortedEntries_iff_get? Paginate.strLt hn k v).mp he
+  simp [(balanceOf_eq s k).2, bal, this]
+
+/-- **C01 "the total supply it reports equals the sum of the balances of all accounts it lists"**:
+after any accepted instantiation and any history, page through `AllAccounts` to completion — any
+`limit ≠ 0` (absent, small, or above the maximum), each page requested with the last returned
+address as `start_after`, until an empty page comes back — and add up `Balance` over the addresses
+obtained: the result is exactly `TokenInfo.total_supply`.  (By C20 the listing so obtained contains
+every account with a balance entry exactly once, in ascending order; `fuel` only bounds the number of
+page requests and any `fuel > number of accounts` suffices.) -/
+theorem listed_sum {m : InstMsg} {s0 : State} (h : instantiate m = .ok s0) (ops : List (Block × Addr × Msg))
+    (limit : Option Nat) (hl : limit ≠ some 0) {fuel : Nat} (hf : (run s0 ops).balances.length + 1 ≤ fuel) :
+    ((Paginate.fetchLoop (fun c => queryAllAccounts (run s0 ops) c limit) id none fuel).map
+        (balanceOf (run s0 ops))).sum = queryTotalSupply (run s0 ops) := by
+  have hn : AMap.NodupKeys (run s0 ops).balances := by
+    rw [run_eq_C20]; exact (CwPlus.Props.C20.reach_nodup h ops).balances
+  rw [CwPlus.Props.C20.all_accounts_complete hn limit hl hf, sum_listed_eq hn]
+  exact (reach_inv h ops).1.symm
+
+/-- … and every address of that listing answers the `Balance` query with its stored balance. -/
+theorem listed_balance_answers (s : State) (a : Addr) : queryBalance s ⟨true, a⟩ = .ok (balanceOf s a) :=
+  (balanceOf_eq s a).1
+
 /-! ## Non-vacuity: the hypotheses are satisfiable on a concrete, non-trivial history -/
 
 /-- An instantiate message with two funded accounts, an empty account and a capped minter. -/
@@ -345,5 +399,22 @@ example : (execute (run exState (exOps.take 6)) exBlk "carol" (.transfer ⟨true
   decide
 
 example : Inv (run exState exOps) := reach_inv (m := exInst) rfl exOps
+
+/-- non-vacuity of `listed_sum`: paging the four accounts of the example history two at a time (three
+requests: two full pages and the empty one) lists all of them, and their balances add up to the
+reported supply 620 -/
+example : Paginate.fetchLoop (fun c => queryAllAccounts (run exState exOps) c (some 2)) id none 5 = ["alice", "bob", "carol", "dave"] ∧
+    (["alice", "bob", "carol", "dave"].map (balanceOf (run exState exOps))).sum = 620 ∧
+    queryTotalSupply (run exState exOps) = 620 := by
+  have hb : (run exState exOps).balances = [("alice", 30), ("bob", 60), ("carol", 30), ("dave", 500)] := by decide
+  have hs : Paginate.sortedEntries Paginate.strLt (run exState exOps).balances =
+      [("alice", 30), ("bob", 60), ("carol", 30), ("dave", 500)] := by
+    rw [hb]; exact Paginate.sortedEntries_of_sorted Paginate.strictTotal_strLt (by unfold Paginate.Sorted; decide)
+  refine ⟨?_, by decide, by decide⟩
+  simp only [queryAllAccounts, hs]; decide
+
+example : ((Paginate.fetchLoop (fun c => queryAllAccounts (run exState exOps) c (some 2)) id none 5).map
+      (balanceOf (run exState exOps))).sum = queryTotalSupply (run exState exOps) :=
+  listed_sum (m := exInst) rfl exOps (some 2) (by decide) (by decide)
 
 end CwPlus.Props.C01
